@@ -137,6 +137,17 @@ CHECKS = {
   note="Partial. Trusted: Coq kernel, vm_compute, regex translator + engine fidelity, splitlines correspondence. Continuation/`;` handling is metamorphic-differential only.",
   technique="Rocq proof (terminator independence, blank-line shift, comment cut, case invariance of all generated statement patterns) + metamorphic re-layout differential against the server",
   design="4/C13"),
+ "C14": dict(
+  text="Coq theorems (C14/Props.v): detect_fixed is true iff no examined (non-preprocessor) line votes free (exact characterisation, all inputs); "
+       "every program printed by the fixed-form printer (column-1 comment flags C c * ! d D, 5-column label field, continuation mark in column 6, "
+       "statements from column 7) is classified fixed for all statement texts under stated well-formedness; every free-form rendering with a statement "
+       "indented by 1..4 blanks, a trailing `&` or an early declaration is classified free; a DO nest of any depth sharing a terminal label is closed "
+       "completely; the direct character tests agree with the regenerated patterns on an exhaustive bounded domain; two refutation witnesses (known "
+       "findings). The model is validated against detect_fixed_format on every run; understanding (entities, nesting, diagnostics) is compared between "
+       "the .f and .f90 renderings of generated programs.",
+  note="Partial. Trusted: Coq kernel, vm_compute, hand model + differential, regex translator. Fixed-form statement gathering is differential only.",
+  technique="Rocq proof (characterisation of the form detector, printer recognised / free never fixed for all programs, labelled-DO stack) over a hand model validated differentially + paired fixed/free rendering differential",
+  design="4/C14"),
 }
 NOT_YET = "not yet built in this round; see DESIGN.md section 8 (build order)"
 
